@@ -130,3 +130,18 @@ Check jacobian_legacy_is_refuted :
   exists J evs, jacobian (NReal AQ) f31 x31 d31 = Ok (J, evs) /\
                 rows J = 1%nat /\ cols J = 3%nat /\ map this (buf J) = [1#1; 2#1; 3#1]%Q.
 Print Assumptions jacobian_legacy_is_refuted.
+(* ---- tie of the model to the source of this run (package r2c2): gen/SrcNewton.v / gen/SrcNewtonC.v are regenerated from
+   src/newton.rs and src/matrix/functions.rs by driver/rust2coq.py on every check run; Proofs/SrcEqNewton.v and
+   Proofs/SrcEqNewtonC.v prove ERASURE -- each of the six regenerated solve methods and of the two finite-difference Jacobians
+   equals the instrumented model of Model/Newton.v (at NReal A resp. NCplx S) with the recorded call points projected away,
+   for every arithmetic, every configuration and every closure (an arbitrary function X -> res X); panics included. *)
+From OV Require Proofs.SrcEqNewton.
+Theorem model_is_source_C18_Newton : forall A : Arith, @SrcEqNewton.model_is_source_Newton A.
+Proof. intros A. exact SrcEqNewton.model_is_source_Newton_lemma. Qed.
+Check model_is_source_C18_Newton : forall A : Arith, @SrcEqNewton.model_is_source_Newton A.
+Print Assumptions model_is_source_C18_Newton.
+From OV Require Proofs.SrcEqNewtonC.
+Theorem model_is_source_C18_NewtonC : forall S : SArith, @SrcEqNewtonC.model_is_source_NewtonC S.
+Proof. intros S. exact SrcEqNewtonC.model_is_source_NewtonC_lemma. Qed.
+Check model_is_source_C18_NewtonC : forall S : SArith, @SrcEqNewtonC.model_is_source_NewtonC S.
+Print Assumptions model_is_source_C18_NewtonC.
